@@ -135,10 +135,23 @@ def convex_prismatic(rng):
     return np.vstack([np.c_[base, np.zeros(n)], [[0.0, 0.0, h]], [[0.0, 0.0, -h / 2]]])
 
 
+def convex_creased(rng):
+    """A box with one lid corner raised by 2^-k (k = 17..22), in an oblique orientation: the lid is two DISTINCT hull facets meeting in a
+    fold a few 1e-6 rad from flat - far outside any rounding-level coplanarity tolerance, yet inside a careless relative one (which
+    compares the components of the unit normals, hence the oblique placement)."""
+    a, b, c = 2.0 ** rng.integers(-1, 3, size=3).astype(float)
+    V = np.array(list(itertools.product([0, a], [0, b], [0, c])), float)
+    V[-1, 2] += c * 2.0 ** -int(rng.integers(17, 23))
+    M, n = rot_from_quat([int(x) for x in rng.integers(1, 4, size=4)], integer=True)      # all components non-zero: no axis stays aligned
+    return V @ M.T * 2.0 ** -int(np.ceil(np.log2(n)))
+
+
 def convex_set(rng, allow_place=True, kinds=("ellipsoid", "ellipsoid", "lattice", "prismatic", "flat", "needle")):
     kind = rng.choice(list(kinds))
     if kind == "ellipsoid":
         V = convex_ellipsoid(rng)
+    elif kind == "creased":
+        V = convex_creased(rng)
     elif kind == "lattice":
         V = convex_lattice(rng)
     elif kind == "prismatic":
